@@ -47,10 +47,39 @@ func (h *handle) wait(d time.Duration) (outcome, bool) {
 	}
 }
 
+// The hang verdict must not be produced by an overloaded or frozen machine:
+// the long wait counts ticks of a 10ms heartbeat goroutine of this process
+// (no ticks while the process is not being scheduled) in addition to wall time.
+var heartbeat atomic.Int64
+
+func init() {
+	go func() {
+		for {
+			time.Sleep(10 * time.Millisecond)
+			heartbeat.Add(1)
+		}
+	}()
+}
+
+// waitLong waits until the case is done, or until d of wall time has passed
+// during which this process was scheduled for at least half of the heartbeats.
+func (h *handle) waitLong(d time.Duration) (outcome, bool) {
+	startTick, start := heartbeat.Load(), time.Now()
+	need := int64(d/(10*time.Millisecond)) / 2
+	for {
+		if o, ok := h.wait(250 * time.Millisecond); ok {
+			return o, true
+		}
+		if time.Since(start) >= d && heartbeat.Load()-startTick >= need {
+			return outcome{}, false
+		}
+	}
+}
+
 // runBlocking: used by triage only.
 func runBlocking(p *program, injs []inj) (outcome, bool) {
 	h := launch(p, injs)
-	o, ok := h.wait(hangTimeout)
+	o, ok := h.waitLong(hangTimeout)
 	h.cancel()
 	return o, ok
 }
@@ -266,6 +295,18 @@ func (c *checker) judge(p *program, injs []inj, order int64, out outcome, hung b
 	c.record("pipeline/"+v.class+"/"+tag, p, injs, order, out, v)
 }
 
+// judgeHang: the case did not finish. Run it once more before calling it a
+// hang (sequential pipelines are deterministic: a real hang hangs again).
+func (c *checker) judgeHang(p *program, injs []inj, order int64) {
+	out, ok := runBlocking(p, injs)
+	if ok {
+		c.mu.Lock()
+		c.notes["slow-case-finished-on-second-run"]++
+		c.mu.Unlock()
+	}
+	c.judge(p, injs, order, out, !ok)
+}
+
 func (c *checker) runCase(p *program, injs []inj, order int64) {
 	c.cases.Add(1)
 	c.transitions.Add(int64(p.nops))
@@ -275,10 +316,10 @@ func (c *checker) runCase(p *program, injs []inj, order int64) {
 	h := launch(p, injs)
 	out, ok := h.wait(fastWait)
 	if !ok && c.blocking {
-		out, ok = h.wait(hangTimeout - fastWait)
+		out, ok = h.waitLong(hangTimeout)
 		if !ok {
 			h.cancel()
-			c.judge(p, injs, order, out, true)
+			c.judgeHang(p, injs, order)
 			return
 		}
 	}
@@ -297,8 +338,12 @@ func (c *checker) runCase(p *program, injs []inj, order int64) {
 	go func() {
 		defer c.wg.Done()
 		defer func() { <-c.parked }()
-		out, ok := h.wait(hangTimeout - fastWait)
+		out, ok := h.waitLong(hangTimeout)
 		h.cancel()
-		c.judge(p, injs, order, out, !ok)
+		if !ok {
+			c.judgeHang(p, injs, order)
+			return
+		}
+		c.judge(p, injs, order, out, false)
 	}()
 }
